@@ -8,6 +8,8 @@
 //            --opt scale=<pct>    scale the number of variants per (entry, seed, class)
 //            --opt sample=<n>     run only ~n cases (memcheck replay)
 //            --opt group=<name>   only entries of one group
+//            --opt plan=1         print the number of planned cases and the entry list, run nothing
+//            --opt tierplan=quick plan the quick catalogue although --tier is thorough (memcheck replay)
 #include "engine.hh"
 #include "protos.hh"
 #include "c12_mut.hh"
@@ -265,6 +267,7 @@ static size_t cap_of(Kind k, int cls, bool quick, double scale) {
 	// variants per (entry, seed, class) before scaling; catalogues smaller than the cap are applied completely
 	static const Cap text[T_NCLASS] = { {1, 1}, {6, 60}, {4, 40}, {3, 30}, {10, 200}, {6, 80}, {8, 200}, {12, 300}, {10, 400}, {8, 400}, {5, 100}, {6, 100}, {3, 40} };
 	static const Cap pgp[P_NCLASS] = { {1, 1}, {5, 60}, {6, 120}, {3, 40}, {5, 128}, {3, 40}, {6, 200}, {6, 200}, {8, 300}, {2, 20}, {2, 20}, {2, 20}, {6, 300}, {8, 400}, {3, 60}, {2, 8}, {400, 4000} };
+	if (k == K_PGP && cls == P_SUBPKT && quick) return (size_t)(24 * scale) ? (size_t)(24 * scale) : 1;
 	Cap c = (k == K_PGP) ? pgp[cls] : (k == K_ARMOR ? Cap{2, 40} : text[cls]);
 	if (cls == 0 && k != K_ARMOR) return 1;
 	double v = (quick ? c.quick : c.thorough) * scale; return v < 1 ? 1 : (size_t)v;
@@ -284,8 +287,8 @@ int main(int argc, char **argv) {
 	__sanitizer_set_death_callback(dump_input);
 #endif
 	build_all();
-	bool quick = ctx.quick(); double scale = atof(ctx.option("scale", "100").c_str()) / 100.0;
-	long sample = ctx.option_l("sample", 0);
+	bool quick = ctx.quick() || ctx.option("tierplan") == "quick"; double scale = atof(ctx.option("scale", "100").c_str()) / 100.0;
+	long sample = ctx.option_l("sample", 0); bool plan_only = !ctx.option("plan").empty(); if (plan_only && sample <= 0) sample = 1;
 
 	std::string dump = ctx.option("dump");
 	if (!dump.empty()) {   // seed corpus for the fuzz targets: <dump>/<group>/<entry>__<seed>
@@ -298,6 +301,7 @@ int main(int argc, char **argv) {
 	// total number of planned cases (needed for --opt sample)
 	long k = 0, total = 0;
 	for (int pass = (sample > 0 ? 0 : 1); pass < 2; pass++) {
+		if (pass == 1 && plan_only) { printf("planned cases: %ld entries: %zu\n", total, g_entries.size()); for (auto &e : g_entries) printf("  %s kind=%d seeds=%zu lines=%zu\n", e.name.c_str(), (int)e.kind, e.seeds.size(), e.plines); return 0; }
 		k = 0;
 		long stride = (pass == 1 && sample > 0 && total > sample) ? total / sample : 1;
 		for (size_t ei = 0; ei < g_entries.size(); ei++) {
